@@ -13,8 +13,9 @@ Ltac evr := cbn [prog_env eval_args callee_init finish_call copy_in copy_out try
                  truth binop_int b2z negb heap_of as_ptr storable fst snd];
   change (0 =? 0) with true; change (1 =? 0) with false; cbn [negb b2z].
 
+(* the names of a slice: stored strings - or nothing yet (a slice a failing reader hands to sbdf_cs_destroy) *)
 Definition elem_ptrs (m : list Z) (cells : list val) : Prop :=
-  Forall (fun c => exists p, c = VPtr RIn p /\ 4 <= p <= zlen m) cells.
+  Forall (fun c => as_ptr c = VNull \/ exists p, c = VPtr RIn p /\ 4 <= p <= zlen m) cells.
 
 Section Release.
 Variables (bv : val) (k : Z) (sx : list Z) (m o : list Z).
@@ -36,19 +37,21 @@ Proof.
   - rewrite app_nil_r in Hu. subst done.
     eapply bsE_while_f; [evr; chk7; evr; cellrw Hc; evr; rewrite Z.ltb_irrefl; reflexivity|reflexivity].
   - assert (Hin : In c used) by (rewrite Hu; apply in_or_app; right; left; reflexivity).
-    unfold elem_ptrs in Hel. rewrite Forall_forall in Hel. destruct (Hel c Hin) as (p & -> & Hp).
+    unfold elem_ptrs in Hel. rewrite Forall_forall in Hel.
     pose proof (zlen_nonneg done) as Pd.
     assert (Hd : zlen done < zlen used) by (rewrite Hu, zlen_app; unfold zlen; cbn [List.length]; lia).
-    assert (Hnth : nth_error ncells (Z.to_nat (0 + zlen done)) = Some (VPtr RIn p)).
+    assert (Hnth : nth_error ncells (Z.to_nat (0 + zlen done)) = Some c).
     { rewrite Hsl, Hu. replace (Z.to_nat (0 + zlen done)) with (List.length done) by (unfold zlen; lia). rewrite <- app_assoc. rewrite nth_error_app2 by lia. rewrite Nat.sub_diag. reflexivity. }
-    pose proof (str_destroy_fr bv k sx m o h p Hp) as SD. unfold fr in SD. cbn [app] in SD.
+    assert (SD : bsE prog_env (fbody prog_sbdf_str_destroy) (fr [("str"%string, as_ptr c)] bv k sx h m o) (ONormal (fr [("str"%string, as_ptr c)] bv k sx h m o))).
+    { destruct (Hel c Hin) as [N|(p & -> & Hp)]; [apply str_destroy_null; exact N|apply (str_destroy_fr bv k sx m o h p Hp)]. }
+    unfold fr in SD. cbn [app] in SD.
     eapply bsE_while_t; [evr; chk7; evr; cellrw Hc; evr; replace (zlen done <? zlen used) with true by lia; reflexivity|reflexivity| |].
     + eapply bsE_seq.
       * eapply bsE_call_void; [reflexivity
           |evr; chk7; evr; cellrw Hc; evr; rewrite Hn; evr; unfold cell_get; rewrite Hnb; replace (0 <=? 0 + zlen done) with true by lia; rewrite Hnth; evr; reflexivity
           |reflexivity|evr; exact SD|evr; reflexivity].
       * eapply bsE_expr. evr. unfold incr. chk7. evr. reflexivity.
-    + replace (zlen done + 1) with (zlen (done ++ [VPtr RIn p])) by (rewrite zlen_app; reflexivity).
+    + replace (zlen done + 1) with (zlen (done ++ [c])) by (rewrite zlen_app; reflexivity).
       apply IH. rewrite <- app_assoc. exact Hu.
 Qed.
 
